@@ -163,7 +163,8 @@ while text:
             text = text[mm.end():]
             break
     else:
-        cut = text.find(';') + 1 or len(text)
+        # an unrecognised statement is left out whole: an if with its block, otherwise up to the semicolon
+        cut = (text.find('}') + 1 if re.match(r'if\s*\(', text) and '}' in text else text.find(';') + 1) or len(text)
         err('statement not recognised: "%s"' % text[:cut][:80])
         text = text[cut:].strip()
 
